@@ -4,8 +4,8 @@ Schemas of qxmpp stanza / nonza classes, transcribed from the C++ `toXml` + `fro
 (file and line of the pair given with each schema; /repo at the pinned tree).  Field order = the
 order in which `toXml` writes, so `encode` reproduces the library's own output form.
 
-Where the code differs from what C01 demands there is a second schema ending in `Code` that models the code as it is
-(not well-formed) next to the repaired one: today `MamQueryIqCode` / `MamQueryIq`.  Several C++ classes behave
+Where the code differs from what C01 demands the convention is a second schema ending in `Code` that models the code as it
+is (not well-formed) next to the repaired one.  Several C++ classes behave
 differently depending on a query type or on the namespace they are found in (PubSub IQ, service discovery, PubSub
 subscription): they have one schema per variant, each valid for the documents of that variant (the harness leaves the
 others out of that schema's correspondence and counts them).
@@ -414,30 +414,44 @@ def RosterIq := iqPayload (declHead "query" nsRoster) [
   .attr (s "ver") .str true, .flagChild (declHead "annotate" nsMixRoster),
   .many (anyHead "item" nsRoster) (rosterItemFields nsRoster) false]
 
-/-! ### XEP-0004 `QXmppDataForm` (src/base/QXmppDataForm.cpp:792-1005), single-valued field types only
+/-! ### XEP-0004 `QXmppDataForm` (src/base/QXmppDataForm.cpp:792-1005)
 
 `parse` ignores an element whose `type` is not a known form type (the form stays null) and `toXml` writes nothing for a
 null form: `wrapGuard` on `type`.  How a `<field/>` reads and writes its `<value/>` / `<option/>` children DEPENDS on the
-field type; the schema covers the five single-valued types (fixed, hidden, jid-single, text-private, text-single: the
-first `<value/>` is the value, written when non-empty, no options).  Forms with a boolean, `*-multi` or `list-*` field and
-fields with `<media/>` sources are OUTSIDE the model (the harness leaves such documents out of the correspondence; the
-model-independent oracles still run on them).  Modelled as the `<x/>` child of a holder. -/
+field type (`formValue`): boolean = first value ∈ {"1","true"}, always written as 1/0; `*-multi` = all values in order;
+the others = the first value, a `QString` that is null when there is no `<value/>`; options only for `list-*`.
+TODAY `toXml` writes a single value only when it is non-EMPTY, so an empty non-null value (`<value/>`) comes back null:
+`dataFormFieldsCode` models that (not well-formed; recorded findings C01:field-mismatch:DataForm:form.3.*.0.1 and the
+`C01:own-form-roundtrip:QXmppPubSub…` / `…QXmppMix…Item` keys of the classes built on data forms, where the null value
+makes the whole field disappear); `dataFormFieldsFixed` is the class after fixes/C01-dataform-empty-value.diff.
+Fields with `<media/>` sources (QUrl / QMimeType) are OUTSIDE the model.  Modelled as the `<x/>` child of a holder. -/
 
 def nsData := s "jabber:x:data"
-def formFieldTypes : List Str := ["fixed", "hidden", "jid-single", "text-private", "text-single"].map s
-def dataFormFields : List Field := [
+def formFieldTypes : List Str := ["boolean", "fixed", "hidden", "jid-multi", "jid-single", "list-multi", "list-single",
+  "text-multi", "text-private", "text-single"].map s
+def formFieldKinds : List Nat := [1, 0, 0, 2, 0, 2, 0, 2, 0, 0]
+def dataFormFieldsWith (dropsEmpty : Bool) : List Field := [
   .attr (s "type") (.enum (["form", "submit", "cancel", "result"].map s)) true,
   .textChild (anyHead "title" nsData) .str true, .textChild (anyHead "instructions" nsData) .str true,
   .many (anyHead "field" nsData) [
-    .attr (s "type") (.enumD formFieldTypes 4) false, .attr (s "label") .str true, .attr (s "var") .str true,
-    .textChild (anyHead "value" nsData) .str true, .textChild (anyHead "description" nsData) .str true,
-    .flagChild (anyHead "required" nsData)] false]
+    .formValue (s "type") formFieldTypes 9 (anyHead "value" nsData) formFieldKinds dropsEmpty
+      (anyHead "option" nsData) [.attr (s "label") .str true, .textChild (anyHead "value" nsData) .str false] [5, 6],
+    .attr (s "label") .str true, .attr (s "var") .str true,
+    .textChild (anyHead "description" nsData) .str true, .flagChild (anyHead "required" nsData)] false]
+def dataFormFieldsCode := dataFormFieldsWith true
+def dataFormFieldsFixed := dataFormFieldsWith false
+/-- what the classes below embed: today's code -/
+def dataFormFields := dataFormFieldsCode
 /-- the form as a child: `exact` = looked up by tag and namespace, else by tag alone -/
 def dataFormChild (exact : Bool) : Field :=
   .child { tag := s "x", ns := nsData, decl := true, anyNs := !exact } dataFormFields (.wrapGuard [true, false, false, false])
 def DataForm : Schema :=
   { head := { tag := s "holder", ns := [], decl := false, anyNs := false }, check := .unchecked, inh := [],
     fields := [dataFormChild true] }
+/-- the repaired class -/
+def DataFormFixed : Schema :=
+  { DataForm with fields := [.child { tag := s "x", ns := nsData, decl := true, anyNs := false } dataFormFieldsFixed
+      (.wrapGuard [true, false, false, false])] }
 
 /-- `QXmppMucOwnerIq` payload (src/base/QXmppMucIq.cpp:265-282): the form is `query.firstChildElement("x")` -/
 def nsMucOwner := s "http://jabber.org/protocol/muc#owner"
@@ -481,15 +495,13 @@ def VCardPhone := unchecked (vcardHead "TEL") [
 
 /-! ### `QXmppMamQueryIq` payload (src/base/QXmppMamIq.cpp:130-158)
 
-The query id is WRITTEN as attribute `queryid` (XEP-0313) but READ from `queryId`: it never survives a round trip.
-`MamQueryIqCode` models the code as it is (field `attrRW`, not well-formed), `MamQueryIq` the repaired class
-(fixes/C01-mamquery-queryid.diff). -/
+The query id is the attribute `queryid` (XEP-0313); read under that name since /repo dfee378 (before that `parse` read
+`queryId`: fixed findings C01:field-mismatch:MamQueryIq:queryId, C01:own-form-roundtrip:MamQueryIq,
+C02:not-fixpoint:MamQueryIq). -/
 
-def mamQueryFieldsWith (queryId : Field) : List Field := [
-  .attr (s "node") .str true, queryId, dataFormChild false,
+def MamQueryIq := iqPayload (declHead "query" nsMam) [
+  .attr (s "node") .str true, .attr (s "queryid") .str true, dataFormChild false,
   .child rsmSet [rsmInt "max" (.optInt 31), rsmStr "after", rsmStr "before", rsmInt "index" (.optInt 31)] .wrapOmit]
-def MamQueryIq := iqPayload (declHead "query" nsMam) (mamQueryFieldsWith (.attr (s "queryid") .str true))
-def MamQueryIqCode := iqPayload (declHead "query" nsMam) (mamQueryFieldsWith (.attrRW (s "queryId") (s "queryid") .str true))
 
 /-! ### `QXmppPubSubSubscription` (src/base/QXmppPubSubSubscription.cpp:258-317), one schema per namespace
 
@@ -510,6 +522,7 @@ def PubSubSubscriptionEvent := subscriptionIn nsPubsubEvent [
   .attr (s "subid") .str true, .attr (s "expiry") .dateTime true]
 def PubSubSubscriptionOwner := subscriptionIn nsPubsubOwner [
   .attr (s "jid") .str false, .attr (s "subscription") (.enum subscriptionStates) true]
+
 
 /-- every modelled class by the name the harness uses -/
 def all : List (String × Schema) := [
@@ -537,7 +550,7 @@ def all : List (String × Schema) := [
   ("RosterItem", RosterItem), ("RosterIq", RosterIq),
   ("DataForm", DataForm), ("MucOwnerIq", MucOwnerIq), ("DiscoInfoIq", DiscoInfoIq), ("DiscoItemsIq", DiscoItemsIq),
   ("VCardAddress", VCardAddress), ("VCardEmail", VCardEmail), ("VCardPhone", VCardPhone),
-  ("MamQueryIq", MamQueryIqCode),
+  ("MamQueryIq", MamQueryIq),
   ("PubSubSubscription", PubSubSubscription), ("PubSubSubscriptionEvent", PubSubSubscriptionEvent),
   ("PubSubSubscriptionOwner", PubSubSubscriptionOwner)]
 
